@@ -668,8 +668,13 @@ func runCheck(ctx *Ctx) int {
 		ev.Assumptions = []string{}
 	}
 	b, _ := json.MarshalIndent(ev, "", " ")
-	_ = os.MkdirAll(filepath.Join(verif, "evidence"), 0o755)
-	must(os.WriteFile(filepath.Join(verif, "evidence", p.ID+".json"), b, 0o644))
+	// Evidence about a scratch tree (VERIF_REPO) never overwrites the evidence about /repo.
+	evDir := "evidence"
+	if ctx.Repo != "/repo" {
+		evDir = "evidence-scratch"
+	}
+	_ = os.MkdirAll(filepath.Join(verif, evDir), 0o755)
+	must(os.WriteFile(filepath.Join(verif, evDir, p.ID+".json"), b, 0o644))
 
 	fmt.Printf("%s %s: theorems %d/%d audited, %d cases (%d distinct non-trivial), %d correspondence mismatches, %d violations, %.1fs\n",
 		p.ID, ctx.Tier, lr.Discharged, lr.Obligations, evals, nontrivial, mismatches, violations, time.Since(t0).Seconds())
